@@ -57,8 +57,8 @@ type Meta struct {
 
 type fdef struct{ name, typ string }
 
-var dFields = []fdef{{"A", "string"}, {"B", "int"}, {"C", "string"}, {"D", "string"}, {"N", "Nest"}, {"P", "*Nest"}, {"Base", ""}, {"Q", "int"}, {"R", "string"}}
-var sFields = []fdef{{"A", "int"}, {"B", "int"}, {"C", "string"}, {"D", "int"}, {"N", "Nest"}, {"P", "*Nest"}, {"Base", ""}, {"Q", "int"}, {"R", "string"}}
+var dFields = []fdef{{"A", "string"}, {"B", "int"}, {"C", "string"}, {"D", "string"}, {"N", "Nest"}, {"P", "*Nest"}, {"Base", ""}, {"Q", "int"}, {"R", "string"}, {"L", "[]string"}}
+var sFields = []fdef{{"A", "int"}, {"B", "int"}, {"C", "string"}, {"D", "int"}, {"N", "Nest"}, {"P", "*Nest"}, {"Base", ""}, {"Q", "int"}, {"R", "string"}, {"L", "[]int"}}
 
 func structText(name string, fs []fdef, pkgPrefix string) string {
 	var b strings.Builder
@@ -219,6 +219,7 @@ func Gen(r *sim.Rng, kind string) (*sim.WorldSpec, *Meta) {
 		{"cNX", "int", "string", true}, {"pNX", "int", "string", false},
 		{"cE1", "int", "string", true}, {"pE1", "int", "string", false},
 		{"cW", "int", "string", true}, {"pW", "int", "string", false},
+		{"cLE", "int", "string", true}, {"pLE", "int", "string", false},
 		{"cC", "string", "string", true}, {"pC", "string", "string", false},
 		{"cR", "string", "string", true},
 	}
@@ -339,6 +340,14 @@ func Gen(r *sim.Rng, kind string) (*sim.WorldSpec, *Meta) {
 				f, c = pickCap(mm.RetErr, "hooks.CD", "hooks.PD")
 			}
 			notes = append(notes, ":conv "+f+" D")
+			capable[f] = c
+		}
+		if slot(25) {
+			// an ELEMENT converter named for a slice field: no match today (the converter
+			// takes an element, the field is a slice); were it ever applied element-wise,
+			// every call inside the loop is a call site of its own (occurrences #1, #2, ...)
+			f, c := pickCap(mm.RetErr, "cLE", "pLE")
+			notes = append(notes, ":conv "+f+" L")
 			capable[f] = c
 		}
 		if slot(30) {
